@@ -36,7 +36,7 @@ def strategy(tier, phase):
 
     from vlib import rmodel
 
-    return st.fixed_dictionaries({"gen": st.sampled_from([2, 3, 4, 4, 5]), "tape": rmodel.tape_strategy(), "outs": st.lists(st.integers(0, 60), min_size=1, max_size=2),
+    return st.fixed_dictionaries({"gen": st.sampled_from([2, 3, 4, 4, 5, 7, 7]), "tape": rmodel.tape_strategy(), "outs": st.lists(st.integers(0, 60), min_size=1, max_size=2),
                                   "ins": st.lists(st.integers(0, 60), min_size=0, max_size=3), "byname": st.integers(0, 3), "target": st.integers(0, 6), "annot": st.one_of(st.just([]), st.lists(st.tuples(st.integers(0, 40), st.integers(0, 7)).map(list), min_size=1, max_size=3)), "mode": st.integers(0, 3), "gattr": st.integers(0, 3),
                                   "refg": st.sampled_from([False, False, True]), "rereg": st.sampled_from([0, 0, 1, 2, 3])})
 
@@ -175,7 +175,7 @@ def execute(case):
     fails = []
     classes = []
     graphs_attr = False
-    if case.get("gattr", 0) % 4 == 1:
+    if case.get("gattr", 0) % 4 == 1 or (case.get("gen", 1) >= 7 and case.get("gattr", 0) % 2 == 1):  # (three-level models: every second one)
         # turn every If into a node carrying its branches in ONE attribute of type GRAPHS (no standard op has one);
         # structure and capture analysis are checked as usual, the execution oracle is skipped for these
         for n in list(deep_nodes(model.graph)):
